@@ -944,7 +944,10 @@ def path_words(body, start, sym_block, sym_edge=None, stops=(), succ=None, max_w
                     res.add(pre + (("end", kind, b),))
             else:
                 for s in ss:
-                    e = tuple(sym_edge(b, s))
+                    e = sym_edge(b, s)
+                    if e is None:
+                        continue        # statically infeasible edge (no enum variant left for it)
+                    e = tuple(e)
                     for w in comp_words(comp[s]):
                         res.add(pre + e + w)
                         if len(res) > max_words:
@@ -955,8 +958,11 @@ def path_words(body, start, sym_block, sym_edge=None, stops=(), succ=None, max_w
             for b in c:
                 for s in succs(b):
                     if s not in cs:
+                        e = sym_edge(b, s)
+                        if e is None:
+                            continue
                         exits = True
-                        e = tuple(sym_edge(b, s))
+                        e = tuple(e)
                         for w in comp_words(comp[s]):
                             res.add(e + w)
             if not exits:
